@@ -1,6 +1,7 @@
 package netceptor
 
 import (
+	"time"
 	"net"
 	"io"
 	"context"
@@ -199,5 +200,40 @@ func Verif_C03_dialled_conn_peer_finishes_first() {
 	verifapi.Assert("connection-close-ends-the-connection", qctx.Err() != nil)
 	s.cancelFunc()
 	dcancel()
+	verifapi.Quiesce()
+}
+
+// Verif_C03_stalled_link_does_not_fail_the_sender: the link a stream's packets leave on is stalled (its
+// writer takes nothing for a while - back-pressure - far shorter than the idle timeout), timers fire,
+// then it drains. The local sender's write is not failed (an error from the packet socket is fatal to
+// the QUIC connection on top of it): the packet waits and is delivered when the link drains.
+func Verif_C03_stalled_link_does_not_fail_the_sender() {
+	n := verifNetceptor("A")
+	s := n.s
+	cb := n.verifConn("B", 1)
+	cb.WriteChan = make(chan []byte) // stalled
+	s.routingTable["B"] = "B"
+	done := make(chan error, 1)
+	go func() { done <- s.SendMessageWithHopsToLive("strm", "B", "svc", []byte{1, 2, 3}, 30) }()
+	verifapi.Quiesce()
+	for i := 0; i < 3; i++ {
+		verifapi.AdvanceTime(time.Second)
+		verifapi.Quiesce()
+	}
+	var failed error
+	select {
+	case failed = <-done:
+	default:
+	}
+	verifapi.Cover("link-stalled-for-a-while")
+	verifapi.Assert("a-short-stall-does-not-fail-the-send", failed == nil)
+	var got []byte
+	select {
+	case got = <-cb.WriteChan:
+	default:
+	}
+	verifapi.Quiesce()
+	verifapi.Assert("packet-delivered-once-the-link-drains", len(got) > 0 && got[0] == MsgTypeData)
+	s.cancelFunc()
 	verifapi.Quiesce()
 }
